@@ -71,7 +71,7 @@ def build_asm(ad):
     return PanelAssembly(panels, conn), panels
 
 
-PRE_CALLS = {"k0": ["kT", "fint", "kM", "kG0"], "fint": ["kT", "kT+k0", "kM"], "kT": ["fint", "kM", "kT"],
+PRE_CALLS = {"k0": ["kT", "fint", "k0nf", "kM", "kG0"], "fint": ["kT", "k0nf", "kT+k0", "kM"], "kT": ["fint", "k0nf", "kM", "kT"],
              "kM": ["kT", "kG0"], "kG0": ["kT", "kM"], "fext": ["kT", "fint"]}
 
 
@@ -97,6 +97,8 @@ def warm_up(a, panels, ad, pre):
                 a.get_k0_conn()
             elif m == "k0":
                 a.calc_k0(silent=True)
+            elif m == "k0nf":
+                a.calc_k0(silent=True, finalize=False)      # the documented form "when assembling"
         except Exception:
             pass
 
